@@ -170,6 +170,14 @@ class Exec:
                 r = s2.new_list(ety, "slice")
                 ln = z3.If(hi_c - lo_c > 0, hi_c - lo_c, 0)
                 s2.set_len(r.term, ln, ety)
+                if sl.lower is None:
+                    # prefix slice: same element array, shorter length (exact on the indices below the new length)
+                    s2.set_elems(r.term, ety, s2.elems(base.term, ety))
+                    if ety[0] == "opt":
+                        s2.set_elems(r.term, ety, s2.elems(base.term, ety, "none"), "none")
+                    r.py = ("slice", base, lo_c, hi_c)
+                    out.append((s2, r))
+                    continue
                 i = z3.Int(fresh_name("i_sl"))
                 src_el = s2.elems(base.term, ety); new_el = z3.FreshConst(src_el.sort(), "slice_el")
                 s2.assume(z3.ForAll([i], z3.Implies(z3.And(0 <= i, i < ln), z3.Select(new_el, i) == z3.Select(src_el, i + lo_c))))
